@@ -357,7 +357,9 @@ def report(prop, args, units, results, known, seed, t0, scratch):
         wit = None
         finder = getattr(u.module, 'find_witness', None)
         ck = (u.name, ob['function'])
-        if ck in wit_cache:
+        if ob.get('witness'):
+            wit = ob['witness']       # bounded checks carry their failing input
+        elif ck in wit_cache:
             wit = wit_cache[ck]
         elif finder:
             try:
@@ -417,7 +419,7 @@ def write_evidence(prop, args, units, results, violations, knowns, undecided, se
     cmds = []
     bounded = []
     for r in results:
-        if r.get('kind') == 'kani':
+        if r.get('kind') in ('kani', 'bounded'):
             obligations += r.get('obligations', 0)
             discharged += r.get('discharged', 0)
             per_fn += r.get('per_fn', [])
